@@ -5,7 +5,7 @@ import json
 from engine.core import run, enumerate_prefixes
 from engine.ob import Ob
 
-from eliot import _output, log_message, start_action
+from eliot import _output, log_message, start_action, MessageType, Field
 from eliot import add_destinations as eliot_add
 from eliot._output import Destinations, Logger
 
@@ -59,11 +59,20 @@ def body_E1(ctx):
     Logger._destinations.add(*dests)
     nm = 1 + ctx.choose(sh.get("max_msgs", 3), "number of messages")
     in_action = ctx.flag("inside an action") if sh.get("actions", 1) else False
+    bad_typed = ctx.flag("message 0 is a typed message whose serializer raises") if sh.get("typed", 1) else False
     logger = Logger()
     sent = []
 
+    def _raises(v):
+        raise Boom("serializer")
+
+    BAD = MessageType("t:bad", [Field("i", _raises, "")], "")
+
     def emit(i):
-        log_message("t:m%d" % i, i=i, payload={"k": [i]})
+        if bad_typed and i == 0:
+            BAD.log(i=i)  # withheld; eliot:traceback + eliot:serialization_failure are logged instead
+        else:
+            log_message("t:m%d" % i, i=i, payload={"k": [i]})
 
     if in_action:
         with start_action(action_type="t:act"):
@@ -88,7 +97,7 @@ def body_E1(ctx):
     idx = 0
     call_no = 0  # every destination has the same call numbering
     expected_kinds = []
-    originals = (["start"] if in_action else []) + ["m%d" % i for i in range(nm)] + (["end"] if in_action else [])
+    originals = (["start"] if in_action else []) + sum(([("eliot:traceback"), ("eliot:serialization_failure")] if (bad_typed and i == 0) else ["m%d" % i] for i in range(nm)), []) + (["end"] if in_action else [])
     fails_at = {d.name: dict(d.fail_log) for d in dests}
     pos = 0
     for what in originals:
@@ -100,6 +109,8 @@ def body_E1(ctx):
             ctx.check(m.get("action_status") == "started", "expected the start message at %d, got %r", pos, strip(m))
         elif what == "end":
             ctx.check(m.get("action_status") == "succeeded", "expected the end message at %d, got %r", pos, strip(m))
+        elif what.startswith("eliot:"):
+            ctx.check(m.get("message_type") == what, "expected %s at stream position %d, got %r", what, pos, strip(m))
         else:
             ctx.check(m.get("message_type") == "t:" + what, "expected %s at stream position %d, got %r", what, pos, strip(m))
         failing = [d for d in dests if call_no in fails_at[d.name]]
@@ -117,6 +128,8 @@ def body_E1(ctx):
             rendering = r.get("message")
             ctx.check(isinstance(rendering, str), "report carries no rendering of the message")
             for k, v in orig.items():
+                if what.startswith("eliot:"):
+                    break  # reports about eliot's own diagnostics: values were serialized (exception -> text) before delivery
                 ctx.check(repr(k) in rendering and repr(v) in rendering, "rendering %r lacks field %r=%r of the affected message", rendering, k, v)
             # a destination failing on a *report* produces nothing further
     ctx.check(pos == len(stream), "%d unexpected extra messages: %r", len(stream) - pos, [strip(x) for x in stream[pos:]])
@@ -283,7 +296,7 @@ def E4() -> bool:
 
 def _e1_shards(tier):
     base = {"max_dests": 3, "max_msgs": 3, "F": 3} if tier == "quick" else {"max_dests": 3, "max_msgs": 4, "F": 5}
-    return [dict(base, prefix=p) for p in enumerate_prefixes(body_E1, "X", {}, base, 3 if tier == "quick" else 4)]
+    return [dict(base, prefix=p) for p in enumerate_prefixes(body_E1, "X", {}, base, 4 if tier == "quick" else 5)]
 
 
 OBLIGATIONS = [
@@ -297,7 +310,7 @@ OBLIGATIONS = [
         shards=_e1_shards,
         twin=[{"max_dests": 3, "max_msgs": 3, "F": 3, "twin_label": "two-failures"}],
         timeout={"quick": 100, "thorough": 1200},
-        bounds={"quick": "<= 3 destinations, <= 3 messages, optionally inside an action, <= 3 failing calls anywhere (incl. on reports)", "thorough": "<= 4 messages, <= 5 failing calls"},
+        bounds={"quick": "<= 3 destinations, <= 3 messages (the first optionally a typed message whose serializer raises, i.e. replaced by its traceback + serialization_failure reports), optionally inside an action, <= 3 failing calls anywhere (incl. on reports)", "thorough": "<= 4 messages, <= 5 failing calls"},
     ),
     Ob("E3", E3, body_E3, "X", desc="failures while the start-up buffer is re-delivered by add_destinations (inside or outside an action): one report per failure, same sequence for every destination", functions=["Destinations.add", "Destinations.send (logger=None)", "log_message", "Action.log"],
        twin=[{"F": 2, "twin_label": "failed-redelivery-inside-action"}], timeout={"quick": 100, "thorough": 300}, bounds={"quick": "1-2 buffered messages, 1-2 destinations, add_destinations inside/outside an action, <= 2 failing calls anywhere"}),
